@@ -262,12 +262,29 @@ def fill_loop(P, rep, outv, rule="LAYOUT.L2"):
     F = P.func("WorldBuilder::World::properties", ptypes=["array<double, 3>"])
     sw = find_switch_on_kind(P, F)[0]
     loop = astq.enclosing(F, sw, astq.LOOPS)
-    if loop is None or loop["k"] != "ForStmt":
+    if loop is None or loop["k"] not in ("ForStmt", "CXXForRangeStmt"):
         rep.unknown(rule, "fill switch is not inside a for loop")
         return
-    ok_loop, ivar, bound = forward_loop(P, F, loop)
     prop_param = F.params[2]
-    if not ok_loop:
+    if loop["k"] == "CXXForRangeStmt":
+        # `for (const auto &property : properties)`: visits the request forwards, once, by construction
+        ok_loop, ivar, bound = True, None, None
+        elem_key = loop["c"][0]["r"]
+        is_elem = lambda nd: astq.is_ref_to(nd, elem_key)
+        if astq.is_ref_to(loop["c"][1], prop_param):
+            rep.ok(rule, "fill loop walks the request forwards (range-for)", F.nloc(loop), F.qn)
+        else:
+            rep.violation(rule, "fill loop ranges over %s, not over the request" % norm.render(P, loop["c"][1]), F.nloc(loop), F.qn,
+                          norm.render(P, loop["c"][1]), "not every requested property gets a block", key=rule + "|loop-bound")
+    else:
+        ok_loop, ivar, bound = forward_loop(P, F, loop)
+
+        def is_elem(nd):
+            s_ = astq.subscript(nd)
+            return bool(s_ and astq.is_ref_to(s_[0], prop_param) and astq.is_ref_to(s_[1], ivar))
+    if loop["k"] == "CXXForRangeStmt":
+        pass
+    elif not ok_loop:
         rep.violation(rule, "fill loop is not `for (i = 0; i < properties.size(); ++i)`", F.nloc(loop), F.qn,
                       norm.render(P, loop["c"][1]), "slots are not laid out in request order",
                       key=rule + "|loop-shape", witness="request with two different kinds")
@@ -280,8 +297,7 @@ def fill_loop(P, rep, outv, rule="LAYOUT.L2"):
             rep.ok(rule, "fill loop walks the request forwards", F.nloc(loop), F.qn)
     # the switch is on properties[ivar][0]
     s = astq.subscript(sc(sw["c"][0]))
-    s2 = astq.subscript(s[0]) if s else None
-    if not (s2 and astq.is_ref_to(s2[0], prop_param) and astq.is_ref_to(s2[1], ivar)):
+    if not (s and is_elem(s[0])):
         rep.violation(rule, "fill switch is on %s, not on properties[i][0]" % norm.render(P, sw["c"][0]), F.nloc(sw), F.qn,
                       norm.render(P, sw["c"][0]), "block kind does not follow the request", key=rule + "|switch-subject")
     entry_keys = set()
@@ -370,8 +386,7 @@ def fill_loop(P, rep, outv, rule="LAYOUT.L2"):
             for ev in path:
                 if ev[0] == "local":
                     a = ev[2][0] if ev[2] else None
-                    s1 = astq.subscript(a) if a is not None else None
-                    if not (s1 and astq.is_ref_to(s1[0], prop_param) and astq.is_ref_to(s1[1], ivar)):
+                    if not (a is not None and is_elem(a)):
                         problems.append("properties_local gets %s, not properties[i]" % norm.render(P, a))
         if problems:
             rep.violation(rule, "3D fill loop, %s: %s" % (KINDS.get(kind, kind), "; ".join(sorted(set(problems)))),
@@ -664,8 +679,10 @@ def xdep(P, rep, funcs, rule="XDEP"):
                               key="%s|%s|other-element|%s" % (rule, F.qn, norm.render(P, s[1])),
                               witness="the same property requested alone and together with another one")
                 continue
-            # range-for over the list: allowed (element-wise)
+            # range-for over the list: allowed (element-wise); the range expression initialises the implicit __range variable
             if par is not None and par.get("k") == "CXXForRangeStmt":
+                continue
+            if par is not None and par.get("k") == "VarDecl" and (par.get("n") or "").startswith("__range") and astq.enclosing(F, par, ("CXXForRangeStmt",)) is not None:
                 continue
             # passed on unchanged as a whole (2D -> 3D forwarding, feature call)
             if par is not None and par.get("k") in ("CXXMemberCallExpr", "CallExpr") and sc(par["c"][0]) is not n:
